@@ -256,12 +256,14 @@ func mapDynamoToTypesItem(item dynamodbtypes.AttributeValue) *types.Item {
 
 	itemBOOL, ok := item.(*dynamodbtypes.AttributeValueMemberBOOL)
 	if ok {
-		return &types.Item{BOOL: &itemBOOL.Value}
+		value := itemBOOL.Value
+
+		return &types.Item{BOOL: &value}
 	}
 
 	itemBS, ok := item.(*dynamodbtypes.AttributeValueMemberBS)
 	if ok {
-		return &types.Item{BS: itemBS.Value}
+		return &types.Item{BS: copyBytesSlice(itemBS.Value)}
 	}
 
 	itemS, ok := item.(*dynamodbtypes.AttributeValueMemberS)
@@ -541,7 +543,7 @@ func mapTypesToDynamoLocalSecondaryIndexes(input []types.LocalSecondaryIndexDesc
 func mapTypesToDynamoItem(item *types.Item) dynamodbtypes.AttributeValue {
 	if item.B != nil {
 		return &dynamodbtypes.AttributeValueMemberB{
-			Value: item.B,
+			Value: append([]byte{}, item.B...),
 		}
 	}
 
@@ -553,7 +555,7 @@ func mapTypesToDynamoItem(item *types.Item) dynamodbtypes.AttributeValue {
 
 	if len(item.BS) != 0 {
 		return &dynamodbtypes.AttributeValueMemberBS{
-			Value: item.BS,
+			Value: copyBytesSlice(item.BS),
 		}
 	}
 
@@ -681,4 +683,13 @@ func mapKnownError(err error) error {
 	}
 
 	return err
+}
+
+func copyBytesSlice(bs [][]byte) [][]byte {
+	out := make([][]byte, len(bs))
+	for i, b := range bs {
+		out[i] = append([]byte{}, b...)
+	}
+
+	return out
 }
